@@ -414,7 +414,7 @@ func (c *RTSPClient) Play(base string, vch, ach int) (int, error) {
 	if r.Code != 200 {
 		return r.Code, fmt.Errorf("SETUP video -> %d", r.Code)
 	}
-	if strings.Contains(sdp, "streamid=1") {
+	if strings.Contains(sdp, "streamid=1") && ach >= 0 { // ach < 0: set up the video track only
 		r, err = c.Do("SETUP", base+"/streamid=1", map[string]string{"Transport": fmt.Sprintf("RTP/AVP/TCP;unicast;interleaved=%d-%d", ach, ach+1)}, "")
 		if err != nil {
 			return 0, err
